@@ -13,6 +13,8 @@ CFG = """SPECIFICATION Spec
 CONSTANTS
   NProms = {%s}
   LayoutIds = {%s}
+  Eols = {%s}
+  Priors = {%s}
   Rules = {%s}
   Scopes = {%s}
   OnlyBasePairs = %s
@@ -28,8 +30,9 @@ def B(x):
     return "TRUE" if x else "FALSE"
 
 
-def cfg(nproms, layouts, rules, scopes, only_base, all_places, slim, inv, view=False):
-    return CFG % (", ".join(map(str, nproms)), ", ".join(map(str, layouts)), ", ".join(map(str, rules)),
+def cfg(nproms, layouts, rules, scopes, only_base, all_places, slim, inv, view=False, eols=("lf",), priors=("none",)):
+    return CFG % (", ".join(map(str, nproms)), ", ".join(map(str, layouts)), ", ".join('"%s"' % s for s in eols),
+                  ", ".join('"%s"' % s for s in priors), ", ".join(map(str, rules)),
                   ", ".join('"%s"' % s for s in scopes), B(only_base), B(all_places), B(slim), inv, "VIEW MCView\n" if view else "")
 
 
@@ -74,18 +77,20 @@ def run(ctx, cases_override=None):
     th = ctx.thorough
     # ---- MC: Impl (isDisabledForRule / isEnabled / locked / file comments) vs DocSuppresses
     if th:
-        mcs = [ctx.tlc("DispatchC07", "c07_mc.cfg", files={"c07_mc.cfg": cfg([1, 2], [1, 2, 3], [2], ["rule", "file"], False, False, False, "Inv_C07", True)},
+        mcs = [ctx.tlc("DispatchC07", "c07_mc.cfg", files={"c07_mc.cfg": cfg([1, 2], [1, 2, 3, 4], [2], ["rule", "file"], False, False, False, "Inv_C07", True,
+                                                                             priors=("none", "expired"))},
                        timeout=5400, allow_violation=True, workers=W)]
     else:
-        mcs = [ctx.tlc("DispatchC07", "c07_mc.cfg", files={"c07_mc.cfg": cfg([1], [2, 3], [2], ["rule", "file"], False, False, False, "Inv_C07", True)},
+        mcs = [ctx.tlc("DispatchC07", "c07_mc.cfg", files={"c07_mc.cfg": cfg([1], [2, 4], [2], ["rule", "file"], False, False, False, "Inv_C07", True,
+                                                                             priors=("none", "expired"))},
                        timeout=3000, allow_violation=True, workers=W)]
     leads = [m["invariant_violated"] for m in mcs if m["invariant_violated"]]
     # ---- probe: reports of the unmodified file per scenario -> C07Base (which (rule, check) pairs have problems)
-    sc = ctx.tlc("DispatchC07", "c07_scen.cfg", files={"c07_scen.cfg": cfg([1, 2], [1, 2, 3], [1], ["rule"], False, False, True, "EmitScen")},
+    sc = ctx.tlc("DispatchC07", "c07_scen.cfg", files={"c07_scen.cfg": cfg([1, 2], [1, 2, 3, 4], [1], ["rule"], False, False, True, "EmitScen")},
                  timeout=3000, workers=1)
     scens = [v[0] for v in prints(sc, "SCEN")]
-    if len(scens) != 6:
-        raise MachineryError("expected 6 scenarios, got %d" % len(scens))
+    if len(scens) != 8:
+        raise MachineryError("expected 8 scenarios, got %d" % len(scens))
     spath = write_ndjson(ctx.path("c07_scen.ndjson"), scens)
     ppath = ctx.path("c07_probe.ndjson")
     ctx.vh("exec-c07-probe", spath, ppath)
@@ -106,16 +111,17 @@ def run(ctx, cases_override=None):
             if not cs:
                 raise MachineryError("GEN %s produced no cases" % name)
             return cs
+        BOTH, PR = ("lf", "crlf"), ("none", "expired")
         if th:
             # every (rule, check) pair with a problem x every comment form x spelling x one placement of each class
             cases += gen("c07_gen0.cfg", cfg([1], [2], ALL_RULES, ["rule", "file"], True, False, False, "EmitCase"))
-            cases += gen("c07_gen1.cfg", cfg([2], [1, 3], ALL_RULES, ["rule", "file"], True, False, True, "EmitCase"))
-            cases += gen("c07_gen2.cfg", cfg([1, 2], [1, 2, 3], ALL_RULES, ["rule", "file"], False, True, False, "EmitCase"),
+            cases += gen("c07_gen1.cfg", cfg([2], [1, 3, 4], ALL_RULES, ["rule", "file"], True, False, True, "EmitCase", eols=BOTH))
+            cases += gen("c07_gen2.cfg", cfg([1, 2], [1, 2, 3, 4], ALL_RULES, ["rule", "file"], False, True, False, "EmitCase", eols=BOTH, priors=PR),
                          simulate=1500, depth=6)
         else:
             # every (rule, check) pair with a problem: `# pint disable <name>` above the rule, file/disable on top
             cases += gen("c07_gen0.cfg", cfg([1], [2], ALL_RULES, ["rule", "file"], True, False, True, "EmitCase"))
-            cases += gen("c07_gen1.cfg", cfg([1, 2], [1, 2, 3], ALL_RULES, ["rule", "file"], True, True, False, "EmitCase"),
+            cases += gen("c07_gen1.cfg", cfg([1, 2], [1, 2, 3, 4], ALL_RULES, ["rule", "file"], True, True, False, "EmitCase", eols=BOTH, priors=PR),
                          simulate=250, depth=6)
         seen, uniq = set(), []
         for c in cases:
